@@ -479,6 +479,11 @@ def run(ck, prog, ctx):
                         st_.extend(xb.succ[x_])
                     ck.ob("PAIR", "decoder-loop/%s/%s/stores-every-record" % (db_.short, xb.short), not dropped, "%s: %s" % (xb.short, "every record decoded in the loop is stored before the next one is read" if not dropped else "a decoded record can be DROPPED: some path from the decode back to the loop head goes round the store (a `continue` / guard in front of it)"), where=xb.where(xb.blocks[decs_[0]].term.line))
 
+    # ------------------------------------------------------------------ add_K puts a record into its map (somewhere: the Occupied arm rightly does not)
+    for K, (stem, plural, rec) in sorted(KINDS.items()):
+        for ab_ in prog.find(r"^ontology::builder::Builder::<.*>::add_%s$" % stem):
+            stores_ = [t_ for fb_ in prog.family(ab_) for _, t_ in fb_.calls() if t_.callee.method in ("insert", "or_insert", "or_insert_with", "or_insert_with_key", "insert_entry", "or_default", "extend") and rec.rsplit("::", 1)[-1] in (t_.callee.def_args or t_.callee.name or "")]
+            ck.ob("PAIR", "add_%s/stores-a-record" % stem, bool(stores_), "add_%s %s" % (stem, "inserts a %s record into its map" % K if stores_ else "never inserts a %s record into its map: the id it returns names no record (annotate_%s then writes through a missing entry)" % (K, stem)), where=ab_.where())
     # ------------------------------------------------------------------ PHASE: writers of the records' `hpos`
     rec_rx = r"annotations::(gene::Gene|omim_disease::OmimDisease|orpha_disease::OrphaDisease)$"
     leaf = set()
